@@ -502,25 +502,41 @@ def reproduce_by_trace(ctx, binp, all_events, bad_events, extra_env=None):
     return confirmed
 
 
-def settle_whitebox(ctx, confirmed, wb_ops, escalate=None, label=""):
-    """White-box events (calls of unexported functions, toy instantiations) are a way to FIND interesting parameters; what an
-    unexported function means is the implementation's business, so their rejections never decide alone.  Confirmed
-    rejections at the API the property names are violations (the white-box ones are reported with them).  White-box
-    rejections alone: `escalate(wb_events)` runs a directed campaign through the exported API (it returns confirmed
-    API-level rejections); if that stays clean the white-box leg is recorded as skipped, not as a violation."""
+def settle_whitebox(ctx, confirmed, wb_ops, escalate=None, label="", wb_all=None, reachable=None):
+    """White-box events (calls of unexported functions) are a way to FIND interesting parameters; what an unexported
+    function means is the implementation's business, so their rejections do not decide by themselves.
+
+    * Confirmed rejections at the API the property names are violations (white-box ones are reported with them).
+    * White-box rejections whose parameters the exported API can reach (`reachable(e)`): `escalate(events)` runs a
+      directed campaign through the exported API and returns confirmed API-level rejections; those decide.
+    * White-box rejections at parameters the API cannot reach in a test (a 3^40-hash search, say) decide only if the
+      white-box leg is *calibrated*: at reachable parameters the unexported function demonstrably still has the meaning
+      the specification assumes (at least 10 reachable white-box events, all conforming) - then a deviation beyond the
+      reach of the API is a deviation of that same function.  If the function deviates at reachable parameters too
+      while the API behaves, its meaning has changed and the whole white-box leg is skipped."""
     is_wb = wb_ops if callable(wb_ops) else (lambda e: e["op"] in wb_ops)
     api = [e for e in confirmed if not is_wb(e)]
     wb = [e for e in confirmed if is_wb(e)]
-    if wb and not api and escalate:
-        api = escalate(wb) or []
+    if not wb:
+        return api
     if api:
         return api + wb
-    if wb:
-        msg = ("white-box deviation without a counterpart at the exported API (%s%d events, first: %s): an unexported function "
-               "changed its meaning, or the deviation is unreachable through the API; the white-box leg is skipped, not a verdict"
-               % (label + ": " if label else "", len(wb), json.dumps({k: v for k, v in wb[0].items() if k in ("op", "in")})[:300]))
-        ctx.skipped.append(msg)
-        ctx.log("SKIPPED: " + msg)
+    reach = reachable or (lambda e: True)
+    wb_reach = [e for e in wb if reach(e)]
+    if escalate:
+        api = escalate(wb_reach or wb) or []
+        if api:
+            return api + wb
+    calibrated = (not wb_reach) and wb_all is not None and len([e for e in wb_all if reach(e)]) >= 10
+    if calibrated:
+        ctx.notes.append("white-box rejections beyond the reach of the exported API accepted as decisive: the same function conforms on all "
+                         "%d reachable white-box events (%s)" % (len([e for e in wb_all if reach(e)]), label))
+        return wb
+    msg = ("white-box deviation without a counterpart at the exported API (%s%d events, first: %s): an unexported function changed its "
+           "meaning, or the deviation cannot be observed through the API; the white-box leg is skipped, not a verdict"
+           % (label + ": " if label else "", len(wb), json.dumps({k: v for k, v in wb[0].items() if k in ("op", "in")})[:300]))
+    ctx.skipped.append(msg)
+    ctx.log("SKIPPED: " + msg)
     return []
 
 
